@@ -18,6 +18,8 @@ ops (see `harness/cmd/drive-dkgrun/main.go`):
   cdv <j> <ddspec> <regs>                                -> ok <validators> | err noreg | err nodd
   agg <kind> <j> <data>                                  -> ok … | err <class>
   xnew | xinj <r> <a> <c> <tau> <ks> <g|b> | xrun <tau>
+  reshare <sched> | addop <k> <sched> | rmop <ids> <part|-> <t'|0> <sched> | replop <pos> <sched>  -> ok | err
+  nval <k> <j:sk,..> -> x=.. pk=b same=b fresh=b ;  nrec / nsig as rec / sig on the new shares ;  part <j>
 -/
 import CharonV.Model.Fr
 import CharonV.Model.DkgGlue
@@ -95,6 +97,17 @@ structure ValSt where
   shares : List (Nat × Nat)
   x      : Nat
 
+/-- one generation of the cluster after a cluster-changing protocol. -/
+structure GenSt where
+  g        : Nat                                -- generation number (1, 2, …)
+  n        : Nat
+  t        : Nat
+  ids      : List String                        -- operator names
+  prev     : List (Option Nat)                  -- position of the operator in the previous generation
+  keysOf   : List Nat                           -- key of each position's public share in `PublicShares`
+  vals     : List ValSt := []
+  lockVals : List (DistValidator SPK SSig) := []
+
 structure St where
   n       : Nat := 0
   t       : Nat := 0
@@ -104,6 +117,7 @@ structure St where
   live    : Bool := false
   vals    : List ValSt := []
   ex      : List (ExState SPK SSig) := []
+  gens    : List GenSt := []                    -- newest first
 
 /-- gas limit: a constant of the ceremony (the harness checks the value). -/
 def gas : Nat := 0
@@ -334,6 +348,106 @@ def amountsOf (amts : List Nat) (m : Nat) (comp : Bool) : List Nat :=
   else if amts.isEmpty then (if comp then [1, 8, 32, 256] else [1, 32])
   else dedupSorted amts
 
+/-! ### cluster-changing protocols -/
+
+/-- symbolic public share of position `j` (1-based) of generation `g` for validator `k`. -/
+def genShare (g j k : Nat) : SPK := .share (100 * g + j) k
+
+/-- the shares node `j` (0-based position) of generation `g` holds after the reshare: the
+`PublicShares` map is keyed as `processKey` files it (handed over in descending order). -/
+def genSharesOf (s : St) (g : GenSt) (j : Nat) : List (Share SPK SSK) :=
+  (List.range s.nv).map fun k =>
+    { pubKey := .group k, secret := ⟨100 * g.g + j + 1, k⟩,
+      pubShares := ((List.range g.n).map fun r => ((g.keysOf[r]?).getD 0, genShare g.g (r + 1) k)).reverse }
+
+/-- validators of generation 0's lock (what the ceremony's glue built at node 0). -/
+def gen0LockVals (s : St) : List (DistValidator SPK SSig) :=
+  match nodeRun s 0 with
+  | .ok a => a.vals
+  | .error _ => []
+
+def prevVals (s : St) (rest : List GenSt) : List ValSt :=
+  match rest with
+  | p :: _ => p.vals
+  | [] => s.vals
+
+def genPkId (s : St) (g : GenSt) : SPK → String
+  | .group k => if k < s.nv then s!"g{k}" else "?"
+  | .share j k => if 100 * g.g + 1 ≤ j && j ≤ 100 * g.g + g.n && k < s.nv then s!"s{j - 100 * g.g}.{k}" else "?"
+  | .foreign => "?"
+
+def partStr (s : St) (g : GenSt) (j : Nat) : String :=
+  let ns := if s.pregen then join "," ((List.range g.n).map fun i => s!"N{i}") else "-"
+  let vals := (List.range g.lockVals.length).filterMap fun k => (g.lockVals[k]?).map fun v =>
+    let reg := match v.reg with | none => "-" | some r => regSigId s r.sig
+    s!"V{k} pk={genPkId s g v.pubKey} ps={join "," (v.pubShares.map (genPkId s g))} dd={join "," (v.deposits.map fun d => depSigId s d.sig)} reg={reg}"
+  let ks := join "," ((storeKeys (genSharesOf s g j)).map fun sk => genPkId s g (.share sk.j sk.k))
+  s!"n={g.n} t={g.t} ops={join "," g.ids} h=1 agg=1 ns={ns} || {join " | " vals} || ks={ks}"
+
+/-- current cluster: (generation number, n, t, operator names, lock validators). -/
+def curCluster (s : St) : Nat × Nat × Nat × List String × List (DistValidator SPK SSig) :=
+  match s.gens with
+  | g :: _ => (g.g, g.n, g.t, g.ids, g.lockVals)
+  | [] => (0, s.n, s.t, (List.range s.n).map fun i => s!"o{i}", gen0LockVals s)
+
+/-- a new generation: the lock is assembled by `updateLockValidators` at node 0. -/
+def mkGen (s : St) (gno n t : Nat) (ids : List String) (prev : List (Option Nat)) (keysOf : List Nat)
+    (oldVals : List (DistValidator SPK SSig)) : St × String :=
+  let g : GenSt := { g := gno, n := n, t := t, ids := ids, prev := prev, keysOf := keysOf }
+  match updateLockValidators oldVals (genSharesOf s g 0) with
+  | none => (s, "err")
+  | some lv => ({ s with gens := { g with lockVals := lv } :: s.gens }, "ok")
+
+def protoStep (s : St) (f : List String) : St × String :=
+  if !s.live then (s, "bad-op") else
+  -- the code as it is: `updateNodeSignaturesProtocolStep` stores node signatures in a lock whose version
+  -- (v1.6.0) has none and then fails `VerifySignatures` (fixes/C11-protocol-v16-node-signatures.diff)
+  if !s.pregen then (s, "err") else
+  let (g0, n, t, ids, oldVals) := curCluster s
+  let gno := g0 + 1
+  let ident := (List.range n).map fun i => some i
+  match f with
+  | ["reshare", _sched] =>
+    -- same operators, same threshold
+    mkGen s gno n t ids ident ((List.range n).map (· + 1)) oldVals
+  | ["addop", k, _sched] =>
+    match k.toNat? with
+    | some k =>
+      if k < 1 then (s, "err") else
+      let new := (List.range k).map fun i => s!"a{gno}.{i}"
+      mkGen s gno (n + k) t (addOperators ids new) (ident ++ (List.range k).map fun _ => none)
+        ((List.range (n + k)).map (· + 1)) oldVals
+    | none => (s, "bad-op")
+  | ["rmop", rm, part, newT, _sched] =>
+    match parseIds rm, parseIds part, newT.toNat? with
+    | some rm, some part, some newT =>
+      if rm.isEmpty || rm.any (· ≥ n) || !rm.Nodup then (s, "err") else
+      let removing := rm.filterMap fun i => ids[i]?
+      let newOps := removeOperators ids removing
+      let newN := newOps.length
+      match removeThreshold n rm.length newT with
+      | none => (s, "err")
+      | some t' =>
+        -- at least the old threshold of share holders takes part; the new threshold fits the new cluster
+        if newN < 1 || newN + part.length < t || t' < 1 || t' > newN then (s, "err") else
+        let keys := remainingShareIdx ids removing
+        mkGen s gno newN t' newOps (keys.map fun i => some (i - 1)) keys oldVals
+    | _, _, _ => (s, "bad-op")
+  | ["replop", pos, _sched] =>
+    match pos.toNat? with
+    | some pos =>
+      match ids[pos]? with
+      | none => (s, "err")
+      | some old =>
+        if n - 1 < t then (s, "err") else
+        match replaceOperator ids old s!"a{gno}.0" with
+        | none => (s, "err")
+        | some newOps =>
+          mkGen s gno n t newOps ((List.range n).map fun i => if i == pos then none else some i)
+            ((List.range n).map (· + 1)) oldVals
+    | none => (s, "bad-op")
+  | _ => (s, "bad-op")
+
 def step (s : St) (line : String) : St × String :=
   match line.splitOn " " with
   | ["run", n, t, nv, alg, amts, ver, flags, _sched] =>
@@ -469,6 +583,59 @@ def step (s : St) (line : String) : St × String :=
             s!"{k}:{join "," (sortStr es)}")
       ({ s with ex := ex' }, join " | " outs)
     | none => (s, "bad-op")
+  | "reshare" :: _ | "addop" :: _ | "rmop" :: _ | "replop" :: _ => protoStep s (line.splitOn " ")
+  | ["nval", v, sks] =>
+    if !s.live then (s, "bad-op") else
+    match s.gens, v.toNat?, parseSks sks with
+    | g :: rest, some v, some sks =>
+      match (prevVals s rest).find? (·.v == v) with
+      | none => (s, "bad-op")
+      | some old =>
+        match checkOut g.n g.t sks with
+        | .error e => (s, e)
+        | .ok x =>
+          let same := x == old.x
+          -- every continuing operator's share changed
+          let fresh := (List.range g.n).all fun j =>
+            match (g.prev[j]?).join, sks[j]? with
+            | some p, some new => (old.shares[p]?).map (·.2) != some new.2
+            | _, _ => true
+          let vs := (g.vals.filter (·.v != v)) ++ [{ v := v, shares := sks, x := x }]
+          ({ s with gens := { g with vals := vs } :: rest }, s!"x={toHex32 x} pk={b01 same} same={b01 same} fresh={b01 fresh}")
+    | _, _, _ => (s, "bad-op")
+  | ["nrec", v, ids] =>
+    if !s.live then (s, "bad-op") else
+    match s.gens, v.toNat?, parseIds ids with
+    | g :: _, some v, some ids =>
+      match g.vals.find? (·.v == v) with
+      | none => (s, "bad-op")
+      | some vs =>
+        match ids.mapM fun i => (vs.shares.find? (·.1 == i)) with
+        | none => (s, "bad-op")
+        | some pts =>
+          if pts.isEmpty || !(ids.Nodup) then (s, "err") else
+          let y := lagrangeAt0 pts
+          (s, s!"{toHex32 y} rpk={b01 (y == vs.x)}")
+    | _, _, _ => (s, "bad-op")
+  | ["nsig", v, ids, _msg] =>
+    if !s.live then (s, "bad-op") else
+    match s.gens, v.toNat?, parseIds ids with
+    | g :: _, some v, some ids =>
+      match g.vals.find? (·.v == v) with
+      | none => (s, "bad-op")
+      | some vs =>
+        match ids.mapM fun i => (vs.shares.find? (·.1 == i)) with
+        | none => (s, "bad-op")
+        | some pts =>
+          if pts.isEmpty || !(ids.Nodup) then (s, "err") else
+          let ok := b01 (lagrangeAt0 pts == vs.x)
+          (s, s!"agg={ok} ver={ok}")
+    | _, _, _ => (s, "bad-op")
+  | ["part", j] =>
+    if !s.live then (s, "bad-op") else
+    match s.gens, j.toNat? with
+    | g :: _, some j => if j < g.n then (s, partStr s g j) else (s, "bad-op")
+    | _, _ => (s, "bad-op")
   | _ => (s, "bad-op")
 
 end Driver.DkgRun
